@@ -9,7 +9,7 @@ import z3
 
 from .. import oblig, sym
 from ..oblig import Result
-from .flushspec import Builder
+from .flushspec import Builder, ghost
 from .c17 import native_binary, run_native
 
 FILTERS = []
@@ -481,9 +481,71 @@ def temporal_minmax(ctx):
     return out
 
 
+PRUNER_BODIES = [
+    # needle, label, look-up calls whose answer a Some(..) result may rest on
+    ("pruner-enum_pruner-{impl#0}-attempt.", "EnumPruner::attempt", r"EnumZonePruner(::<.*>)?::prune$"),
+    ("pruner-xor_pruner-{impl#0}-apply_zone_index_only.", "XorPruner::apply_zone_index_only", r"zones_maybe_containing$"),
+    ("pruner-xor_pruner-{impl#0}-apply_presence_only.", "XorPruner::apply_presence_only", r"contains_value$"),
+    ("pruner-range_pruner-{impl#0}-apply_surf_only.", "RangePruner::apply_surf_only", r"zones_overlapping_(ge|le)$"),
+]
+
+
+def pruner_answers(ctx):
+    """A zone pruner answers Some(zones) = "only these zones can hold a match" or None = "no answer, scan everything".
+    Some(..) is sound only when it rests on a look-up in the segment's index for this very probe."""
+    r = Result("B-8", "enum / zone-XOR / XOR-presence / SuRF pruners: Some(zones) is returned only on paths on which the index "
+                      "was consulted for the probe (EnumZonePruner::prune, zones_maybe_containing, contains_value, "
+                      "zones_overlapping_ge / le); without a look-up - unsupported operator, index not loadable, literal "
+                      "unknown to the index - the answer is None, except that `=` against a value the enum index has never "
+                      "seen may answer Some(no zones)")
+    r.functions = [b[1] for b in PRUNER_BODIES]
+    r.bounds = "every path of the four bodies (loop-free apart from iterator adaptors, which are opaque calls)"
+    out = [r]
+    q = ctx.q
+    found = 0
+    for needle, label, lookup in PRUNER_BODIES:
+        E, err = ctx.load(needle, ghosts={"lookup": ghost(lookup), "position": ghost(r"Iterator::position$")})
+        if E is None:
+            r.notes.append(f"{label}: {err}")
+            continue
+        found += 1
+        for (node, reach, env) in E.returns:
+            d = E.disc_term(env.get(0))
+            g = env.get("@lookup")
+            if d is None or g is None:
+                r.status = "inconclusive"
+                r.notes.append(f"{label}: return value / ghost not resolved")
+                return out
+            excuse = z3.BoolVal(False)
+            if "enum" in needle:
+                # `=` against a variant the index does not know: no zone can hold it
+                pos = [e for e in oblig.events(E, r"Iterator::position$")]
+                eq = E.structs.variant_index("CompareOp::Eq")
+                opd = z3.BitVec("disc(arg:op)", 64)
+                if pos and eq is not None:
+                    excuse = z3.And(pos[0].reach, z3.BitVec(f"disc({pos[0].site})", 64) == 0, opd == eq)
+            res, model = q.check(reach, d == 1, z3.Not(g), z3.Not(excuse), domain=E.domain)
+            r.queries += 1
+            if res == z3.sat:
+                r.status = "violated"
+                r.witness = {"what": f"{label} answers Some(zones) on a path without an index look-up for the probe: the zones it leaves "
+                                     f"out are never scanned although nothing was learnt about them",
+                             "span": None, "call": label, "path": E.path_of_model(model)[-10:], "model": oblig.model_summary(E, model)}
+                return out
+            if res != z3.unsat:
+                r.status = "inconclusive"
+                r.notes.append("solver returned unknown")
+                return out
+    r.nontrivial = found == len(PRUNER_BODIES)
+    if found != len(PRUNER_BODIES):
+        r.status = "inconclusive"
+    return out
+
+
 def obligations(ctx):
     q = ctx.q
     out = []
+    out += pruner_answers(ctx)
     out += calendar_builder(ctx)
     out += not_zones(ctx)
     out += temporal_minmax(ctx)
